@@ -5,7 +5,7 @@
 From Coq Require Import Reals Lra Lia ZArith List Bool.
 From GS Require Import Num Loops.
 Import ListNotations.
-Open Scope R_scope.
+Local Open Scope R_scope.
 
 Definition Rltb (x y : R) : bool := if Rlt_dec x y then true else false.
 Definition Rleb (x y : R) : bool := if Rle_dec x y then true else false.
